@@ -710,6 +710,32 @@ func main() {
 		addStr("cleanerPreconditions", strings.Join(conds, " ; "))
 	}
 
+	// the replica client's wait for a fold / a transfer run by the sync agent: which exit codes of the
+	// child mean "still running", "done" and "failed" (a child killed by a signal reports -1)
+	{
+		cl := parse(*repo, "replica/client/client.go")
+		f := cl.fn("ReplicaClient", "fileOperation")
+		var parts []string
+		ast.Inspect(f, func(x ast.Node) bool {
+			switch n := x.(type) {
+			case *ast.SwitchStmt:
+				parts = append(parts, "switch "+src(n.Tag))
+			case *ast.CaseClause:
+				var l []string
+				for _, e := range n.List {
+					l = append(l, src(e))
+				}
+				parts = append(parts, "case "+strings.Join(l, ","))
+			case *ast.IfStmt:
+				if strings.Contains(src(n.Cond), "ExitCode") {
+					parts = append(parts, "if "+src(n.Cond))
+				}
+			}
+			return true
+		})
+		addStr("clientFileOpExit", strings.Join(parts, " ; "))
+	}
+
 	// RemoveDiffDisk / ReplaceDisk: the chain is re-linked (removeDiskNode) before the files are unlinked
 	{
 		for _, n := range []string{"RemoveDiffDisk", "ReplaceDisk"} {
